@@ -456,6 +456,38 @@ def r7_dtp_format_from_qualifier(ctx):
                  % (norm(lst), '; '.join(probs[:2])))
 
 
+def r8_exclusion_list(ctx):
+    """exclusions are switched per code set: the excluded ids are kept as a LIST of ids (the parameter split at the
+    commas) and tested by membership.  Kept as the raw string, `key in exclude` is a substring test: excluding
+    claim_status_cat would also switch off claim_status."""
+    fn = ctx.func('codes', 'ExternalCodes.__init__')
+    vals = []
+    for n in ast.walk(fn):
+        if isinstance(n, ast.Assign) and any(path_of(t) == 'self.exclude_list' for t in n.targets):
+            vals.append(n.value)
+    if not vals:
+        raise AnalysisError('codes: assignment of self.exclude_list not found')
+
+    def is_list(v):
+        if isinstance(v, ast.IfExp):
+            return is_list(v.body) and is_list(v.orelse)
+        if isinstance(v, (ast.List, ast.ListComp, ast.Tuple)):
+            return True
+        if isinstance(v, ast.Call) and isinstance(v.func, ast.Attribute) and v.func.attr == 'split' and v.args and A.const(v.args[0]) == ',':
+            return True
+        if isinstance(v, ast.Call) and path_of(v.func) in ('list', 'set', 'frozenset', 'tuple') and v.args and is_list(v.args[0]):
+            return True
+        return False
+    bad = [v for v in vals if not is_list(v)]
+    yield Ob('codes:ExternalCodes.__init__ exclude_list is the list of excluded ids', not bad, ctx.floc(fn, bad[0] if bad else vals[0]),
+             '' if not bad else '`%s` is not a list of ids: membership in it is a substring test' % norm(bad[0]))
+    iv = ctx.func('codes', 'ExternalCodes.isValid')
+    tests = [n for n in ast.walk(iv) if isinstance(n, ast.Compare) and len(n.ops) == 1 and isinstance(n.ops[0], ast.In)
+             and path_of(n.comparators[0]) == 'self.exclude_list']
+    ok = len(tests) == 1 and path_of(tests[0].left) == 'key'
+    yield Ob('codes:ExternalCodes.isValid tests the code set id for membership in the exclusions', ok, ctx.floc(iv), '' if ok else 'exclusion test changed')
+
+
 RULES = [
     Rule('C15.R1', 'reported => result False (path search from every report)', r1_reported_implies_false, floor=15),
     Rule('C15.R2', 'result False => reported (path search to every constant False)', r2_false_implies_reported, floor=11),
@@ -464,4 +496,5 @@ RULES = [
     Rule('C15.R5', 'data element lengths sane; element regexes compile', r5_data, floor=225),
     Rule('C15.R6', 'delegated is_valid calls always run and are and-ed into the result', r6_delegation_always_runs, floor=7),
     Rule('C15.R7', 'DTP03 is validated against the qualifier sent in DTP02 only', r7_dtp_format_from_qualifier, floor=1),
+    Rule('C15.R8', 'excluded code sets are kept as a list of ids and tested by membership', r8_exclusion_list, floor=2),
 ]
